@@ -1008,15 +1008,5 @@ def exCheck : Bool :=
 set_option maxRecDepth 100000 in
 theorem exCheck_true : exCheck = true := by decide +kernel
 
-#print axioms exCheck_true
-#print axioms pw_new
-#print axioms pw_writeAll
-#print axioms pw_flush
-#print axioms pw_position
-#print axioms pw_size
-#print axioms pw_seek
-#print axioms pw_align
-#print axioms abs_wf
-#print axioms pw_refines
 
 end E57
